@@ -19,11 +19,12 @@ def values_small():
     out.append((crit.tv_bool(True), crit.tv_int(1)))
     out.append((crit.tv_str("ON"), crit.tv_int(1)))                    # enumerated label with int raw
     out.append((crit.tv_str("OFF"), crit.tv_int(0)))
+    out.append((crit.tv_str("ON "), crit.tv_int(2)))                   # blanks are characters: 'ON ' is not 'ON'
     return out
 
 
 LITS = [crit.lit_num(True, 1), crit.lit_num(False, 0), crit.lit_num(False, 1), crit.lit_num(False, 2),
-        crit.lit_num(False, 1, (5,)), crit.lit_num(False, 0, (0,)), crit.lit_txt("x"), crit.lit_txt("ON")]
+        crit.lit_num(False, 1, (5,)), crit.lit_num(False, 0, (0,)), crit.lit_txt("x"), crit.lit_txt("ON"), crit.lit_txt("ON "), crit.lit_txt(" ON")]
 
 
 def case(kind, expr, env, cur=None):
